@@ -11,7 +11,10 @@ CONF = dict(
  'each instant 1..8 goroutines released together, each making 1..5 calls (incl. Get of the id a rotation at that very instant would create and of the key '
  "its own Current just returned); a share of the histories starts up to five days before a daylight-saving change of the process's local zone "
  '(Europe/Zurich, zone database compiled in); one history (thorough: three) with > 65536 rotations and Gets around the 2^16-th key (kind prov.long, one-pass '
- 'oracle). Also Key.IsValidAt '
+ 'oracle); listener histories (kind prov.lsn, one child process each): the real NTS-KE server and the real IP and SCION listeners on one provider, key '
+ 'exchanges through the real Fetcher, NTS requests with old and with re-issued cookies, the provider aged by Provider.VerifAge between steps (minutes to '
+ 'days, +-1 s around generation + 24 h, generation + 72 h and hand-out + 48 h), observed: answered or not and the key id on every cookie handed out. '
+ 'Also Key.IsValidAt '
  'on (NotBefore, NotAfter, t) triples at the edges, and one source check of the lock discipline. Non-trivial: a history with at least one rotation and at least '
  'one Get of a key that Current had handed out (tags b24/b48/b72/exp/gap/weird count the boundary hits); IsValidAt within 1 ns of an edge; distinct = distinct '
  '(kind, input)'),
@@ -21,6 +24,7 @@ CONF = dict(
  'crypto/rand.Read modelled as a tape: the k-th generated key carries value k (the harness installs such a tape as crypto/rand.Reader)'],
     trusted=['modelled, not verified: sync.Mutex (mutual exclusion; the interleaving model lock_run), Go maps (association list), time.Time comparison and Add, '
  'testing/synctest virtual time (time does not advance while a goroutine of the bubble runs or waits for a mutex)',
+ 'prov.lsn: virtual time = real time + Provider.VerifAge (committed hook net/ntske/hooks_verif.go); TLS, AES-SIV and the packet codecs are used, not modelled (C10/C14/C20); requests are honest',
  'data-race freedom of the real binary is partial: lock-discipline theorem over the interleaving model + syntactic source check (prov.lock) + the harness is built '
  'with the race detector and drives up to 8 goroutines through the real mutex'],
     technique=('Coq proof by one inductive invariant over arbitrary Current/Get histories with non-decreasing clock readings (generation log newest-first with ids +1 and '
@@ -42,5 +46,5 @@ CONF = dict(
  'Current ids never decrease; key handed out at t is returned unchanged by every Get up to t + 48 h and by none after generation + 72 h.'),
     timeout_quick=600,
     timeout_thorough=3000,
-    min_cases={'prov.conc': 270, 'prov.hist': 780, 'prov.lock': 1, 'prov.long': 1, 'prov.valid': 900},
+    min_cases={'prov.conc': 270, 'prov.hist': 780, 'prov.lock': 1, 'prov.long': 1, 'prov.lsn': 4, 'prov.valid': 900},
 )
